@@ -27,15 +27,18 @@ Definition opt_eqb (a b : option string) : bool :=
 (* the finite domain of the table comparison: every key of either table *)
 Definition all_keys : list key := map fst compiled_tbl ++ map fst meta_tbl.
 
-Definition agree_on (k : key) : bool := opt_eqb (lookup compiled_tbl k) (lookup meta_tbl k).
+Definition agree (t1 t2 : table) (k : key) : bool := opt_eqb (lookup t1 k) (lookup t2 k).
+Definition agree_on (k : key) : bool := agree compiled_tbl meta_tbl k.
 
 (* a key on which the two paths invoke different operations (or only one path knows the functor), with
    both entries; None when the tables agree *)
-Definition tables_counterexample : option (key * option string * option string) :=
-  match find (fun k => negb (agree_on k)) all_keys with
-  | Some k => Some (k, lookup compiled_tbl k, lookup meta_tbl k)
+Definition counterexample_of (t1 t2 : table) (ks : list key) : option (key * option string * option string) :=
+  match find (fun k => negb (agree t1 t2 k)) ks with
+  | Some k => Some (k, lookup t1 k, lookup t2 k)
   | None => None
   end.
+Definition tables_counterexample : option (key * option string * option string) :=
+  counterexample_of compiled_tbl meta_tbl all_keys.
 
 Definition evaluable (t : table) (k : key) : bool := match lookup t k with Some _ => true | None => false end.
 
